@@ -67,3 +67,11 @@ package conn
 //@ func (DialerCache).Get
 //@   trusted
 //@   modifies nothing
+
+//@ func NewListenConfigCache
+//@   trusted
+//@   modifies nothing
+
+//@ func NewDialerCache
+//@   trusted
+//@   modifies nothing
